@@ -34,7 +34,7 @@ C01_Blocks == Stmts({0}, Single \cup Multi \cup {"tri3", "pair2"}, {"none"})
               \cup {St(0, "f9", "c", "none"), St(0, "f9", "a", "none"), St(0, "f10", "c", "none")}
 
 \* ---- C19: dump (programs as C01, smaller shape set, plus a star-import statement)
-C19_Blocks == Stmts({0}, {"one", "expr", "cmt", "ml2", "cmp2", "deco3", "tri3", "star"}, {"none"})
+C19_Blocks == Stmts({0}, {"one", "expr", "cmt", "ml2", "ml3", "cmp2", "deco3", "tri3", "star"}, {"none"})
               \cup Stmts({0}, {"one", "cmp2"}, {"last"})
               \cup {St(0, "cmt", "a", "first"), Txt(0, 1), Txt(0, 2), Blank}
 
